@@ -238,7 +238,9 @@ def group_b(out, tier):
         patterns = SCORE_PATTERNS if lst else [SCORE_PATTERNS[0]]
         for pat in patterns:
             for nms_t in (0.3, 0.7):
-                for score_t in (None, 0.5):
+                # 5.0 lies above every score and above every box height (an unscored box is ranked by its height
+                # but never removed by the score filter)
+                for score_t in (None, 0.5, 5.0):
                     prelude = [NMS_MENU[i] for i in sorted(set(lst))]
                     dets = [T(R(f"n{i}"), pat[k]) for k, i in enumerate(lst)]
                     if first and lst:
@@ -943,7 +945,7 @@ RULE = (
     "a) every constructor / static constructor of Universal2DBox and BoundingBox x 4-6 argument tuples (keyword form "
     "included), followed by every getter and non-mutating method, and by every word of mutators (each setter x 2 values, "
     "rotate x 3, gen_vertices) of length 1 (quick) or <= 2 (thorough) followed by a full dump; b) nms over every ordered "
-    "list of <= 3 distinct boxes of a 5-box menu x 4 score patterns x 2 nms thresholds x score_threshold {None, 0.5}; "
+    "list of <= 3 distinct boxes of a 5-box menu x 4 score patterns x 2 nms thresholds x score_threshold {None, 0.5, 5.0 (above every score and every box height)}; "
     "sutherland_hodgman_clip and intersection_area over all 36 ordered pairs of a 6-box menu; c) the three Kalman filters: "
     "every word of length <= 2 (quick) / <= 3 (thorough) over {predict, update(m1), update(m2), distance(m1)} after initiate, "
     "x 5 constructor forms (no arguments, each weight omitted, explicit defaults, custom) x the initial values; "
